@@ -8,7 +8,7 @@ CHECKS = {
     'C10': ('four monitors on one stress workload (2-16 application threads x all thread-safe entry points x continuous uplink traffic x auto-flush, lock-level perturbation; tsan/asan/mon flavours): ThreadSanitizer reports in library code, contract monitor at every documented-lock accessor, history oracles (getter results of every receiver-written entity kind equal a state that existed during the call, entity invariants, each queued message returned exactly once), a lost-update oracle for read-modify-write commands with one writer per function, strict decode + sequence scan of the shared downlink stream; directed preemption (a command / the receiver / a getter paused at each of its scheduling points while the other side runs); container lockset monitor (Eraser over glib containers); reduced scenarios under valgrind helgrind',
             'TSan / helgrind ignore only the four volatile lifecycle flags; glib uninstrumented for TSan (container lockset monitor and helgrind cover it); schedules are sampled, plus one directed preemption per scenario step',
             'runtime monitoring: ThreadSanitizer + helgrind + lock-contract and container-lockset monitors + linearizability-style history oracles under stress and directed preemption'),
-    'C11': ('link-time lock monitor over a systematic cross product (every public function x argument class x mode, all 256 uplink types and field sweeps (every value of one data byte of valid feedback about configured equipment) on the receiver thread, both user queues driven over their bound, every rejected-configuration class, sys_reset), a stop-race sweep (bidib_stop against the auto-flush thread / the receiver parked at scheduling point k by directed preemption: no thread exits holding a lock) and concurrent stress: held-set empty at every return and whenever the receiver is back at the read callback; union lock-order graph observed while running must be acyclic; self-wait / wait-for cycle detection with watchdog',
+    'C11': ('link-time lock monitor over a systematic cross product (every public function x argument class x mode, all 256 uplink types and field sweeps (every value of one data byte of valid feedback about configured equipment) on the receiver thread, both user queues driven over their bound, every rejected-configuration class, sys_reset, spontaneous traffic during the start-up dialogue, the flow-control histories of C04), a stop-race sweep (bidib_stop against the auto-flush thread / the receiver parked at scheduling point k by directed preemption: no thread exits holding a lock) and concurrent stress: held-set empty at every return and whenever the receiver is back at the read callback; union lock-order graph observed while running must be acyclic; self-wait / wait-for cycle detection with watchdog',
             'acyclicity of the observed order only; reader-preferring rwlocks (recursive read acquisition is not an edge); allocation-failure paths not driven',
             'runtime monitoring: lock-order graph, held-set balance and wait-for-cycle monitors over systematic + stress workloads'),
     'C12': ('hostile uplink streams from five generators (noise, corrupted valid traffic, grammar-generated CRC-valid packets with adversarial length/address/type/field values, field sweeps over valid feedback about configured equipment, delimiter-less runs of 255-4096 bytes) in debug and normal mode against generated configurations, with host commands issued in between; zero ASan/UBSan reports, normal exit, and after every stream a probe packet must be delivered; batches per process with re-run of the tail after a crash',
@@ -23,7 +23,7 @@ CHECKS = {
     'C15': ('model node tree (address = path of local addresses, lost interface takes its subtree): connectivity getters after start (incl. a table change during enumeration, unknown nodes whose unique id is one byte off an absent configured board) and after each of 0-30 node-new/node-lost notices (incl. repeated ones), after an address swap followed by a second enumeration (sys_reset), one NODE_CHANGED_ACK(version) to the announcer per notice, a ping per board addressed to the model\'s current address or refused',
             'simulated bus node table updated alongside scripted notices; announcers of depth <= 2',
             'runtime monitoring: tree-model oracle over getter snapshots and decoded wire + ASan/UBSan'),
-    'C16': ('stop transcript vs. model per connected track output, also inside a failed start during which a configured track output logged on; link-time thread monitor (create/join exactly once, none alive after stop or failed start); heap and file-descriptor conservation over six identical sessions (ASan allocator statistics, LSan); idempotent stop/start (incl. the auto-flush period of the running session); two probe sessions (normal mode: per-node transcripts, snapshots, return values; low-level debug mode: the bytes written, i.e. packet boundaries and sequence numbers) as sessions k, k+1 after sessions of every kind (incl. another configuration of the same node tree) vs. the same two sessions in a fresh process',
+    'C16': ('stop transcript vs. model per connected track output, also inside a failed start during which a configured track output logged on; link-time thread monitor (create/join exactly once, none alive after stop or failed start); heap and file-descriptor conservation over six identical sessions (ASan allocator statistics, LSan); idempotent stop/start (incl. the auto-flush period of the running session); sessions on a line that never falls silent (idle delimiters / babble during stop and failing starts); two probe sessions (normal mode: per-node transcripts, snapshots, return values; low-level debug mode: the bytes written, i.e. packet boundaries and sequence numbers) as sessions k, k+1 after sessions of every kind (incl. another configuration of the same node tree) vs. the same two sessions in a fresh process',
             'pthread_create/join interposed with ld --wrap; __sanitizer_get_current_allocated_bytes; decoded message lists compared per node',
             'runtime monitoring: lifecycle monitors (threads, heap, transcript, session equivalence) + ASan/LSan'),
     'C19': ('per occupancy report of SecAck / non-SecAck boards the decoded wire at the next quiescent point without any flush step: exactly one mirror with identical number/payload (packets with several reports from several nodes, malformed last message, the application reading and freeing the queue while the receiver is parked inside the report), none for boards without feature 0x03>0 (absent boards, address reuse, re-login, an earlier session of the same process with the opposite SecAck setting); stalled or budget-blocked board: mirrors owed and delivered in order exactly once after release',
@@ -62,7 +62,7 @@ CHECKS = {
     'C05': ('per-node sequence-number oracle over the decoded wire under 2-16 sender threads, budget deferral released by the receiver thread, 255->1 wrap, lock-level perturbation, asan+tsan; a peer thread sending every uplink type in normal mode; directed sweeps over every scheduling point of a send and of the receiver while it releases held messages; the workloads of C03/C04/C09/C15/C16/C19/C20 (library-internal submitters, several sessions) judged per session',
             'reference decoder; perturbation at every lock operation via link-time wrappers; schedules are sampled, not enumerated',
             'runtime monitoring: ordering oracle over recorded wire history under stress + TSan'),
-    'C18': ('boundary sweep of every public bidib_send_* function against an independent spec table (header docs + bidib_messages.h): decoded wire after each call, ASan/UBSan on exact-size argument buffers (mixed content incl. zero bytes, empty buffers also as NULL); re-entrancy sweep: every function called by two threads with different arguments, one paused at its first scheduling points',
+    'C18': ('boundary sweep of every public bidib_send_* function against an independent spec table (header docs + bidib_messages.h): decoded wire after each call, ASan/UBSan on exact-size argument buffers (mixed content incl. zero bytes, empty buffers also as NULL); normal-mode part: state-tracked commands repeated with the same arguments against an acknowledging peer; re-entrancy sweep: every function called by two threads with different arguments, one paused at its first scheduling points',
             'spec table vlib/spec_lowlevel.py; gcc ASan/UBSan red zones (512 B); reference decoder; low-level debug mode session',
             'runtime monitoring: spec-table oracle over decoded wire + ASan/UBSan'),
 }
